@@ -44,7 +44,49 @@ def gen_T05():
     need("if server_tags is None:\n    self.server_tags = {}\nelse:\n    self.server_tags = server_tags" in
          [ast.unparse(n) for n in ast.walk(init) if isinstance(n, ast.If)],
          'IrcMsg.__init__: untagged keyword-built messages no longer get a fresh server_tags dict')
+    # ---- the tail of IrcMsg.__init__ (outside the try): nick/user/host from the prefix ----
+    tail = [ast.unparse(b) for b in init.body[-1:]]
+    need(tail == ['if isUserHostmask(self.prefix):\n    self.nick, self.user, self.host = ircutils.splitHostmask(self.prefix)\n'
+                  'else:\n    self.nick, self.user, self.host = (self.prefix,) * 3'],
+         'IrcMsg.__init__: the nick/user/host split at the end changed: %r' % tail)
+    imp = [ast.unparse(n) for n in t.body if isinstance(n, (ast.Assign, ast.ImportFrom)) and 'isUserHostmask' in ast.unparse(n)]
+    need(imp == ['isUserHostmask = ircutils.isUserHostmask'] or any('isUserHostmask' in i and 'ircutils' in i for i in imp),
+         'ircmsgs.isUserHostmask is not ircutils.isUserHostmask: %r' % imp)
+    u = tree('src/ircutils.py')
+    rx = module_assign(u, 'userHostmaskRe')
+    need(ast.unparse(rx) == "re.compile('^\\\\S+!\\\\S+@\\\\S+$')", 'userHostmaskRe changed: ' + ast.unparse(rx))
+    iu = find_def(u, 'isUserHostmask')
+    body = [b for b in iu.body if not (isinstance(b, ast.Expr) and isinstance(b.value, ast.Constant))]
+    need([ast.unparse(b) for b in body] == ['return userHostmaskRe.match(s) is not None'], 'isUserHostmask changed')
+    sh = find_def(u, 'splitHostmask')
+    body = [b for b in sh.body if not (isinstance(b, ast.Expr) and isinstance(b.value, ast.Constant))]
+    need(len(body) == 4 and ast.unparse(body[0]) == 'assert isUserHostmask(hostmask)', 'splitHostmask: expected assert + two splits + return')
+
+    def one_split(st):
+        # `x, y = src.split|rsplit('<c>', 1)` -> (x, y, src, rsplit?, c)
+        need(isinstance(st, ast.Assign) and len(st.targets) == 1 and isinstance(st.targets[0], ast.Tuple)
+             and len(st.targets[0].elts) == 2 and all(isinstance(e, ast.Name) for e in st.targets[0].elts),
+             'splitHostmask: not a two-name unpacking: ' + ast.unparse(st))
+        c = st.value
+        need(isinstance(c, ast.Call) and isinstance(c.func, ast.Attribute) and c.func.attr in ('split', 'rsplit')
+             and isinstance(c.func.value, ast.Name) and len(c.args) == 2 and not c.keywords
+             and isinstance(c.args[0], ast.Constant) and isinstance(c.args[0].value, str) and len(c.args[0].value) == 1
+             and isinstance(c.args[1], ast.Constant) and c.args[1].value == 1,
+             'splitHostmask: not a src.(r)split(<char>, 1): ' + ast.unparse(st))
+        return (st.targets[0].elts[0].id, st.targets[0].elts[1].id, c.func.value.id, c.func.attr == 'rsplit', c.args[0].value)
+    a1, b1, src1, r1, c1 = one_split(body[1])
+    a2, b2, src2, r2, c2 = one_split(body[2])
+    need(src1 == 'hostmask' and src2 in (a1, b1) and len({a1, b1, a2, b2}) == 4, 'splitHostmask: unexpected data flow')
+    right = src2 == b1
+    pieces = [a1, a2, b2] if right else [a2, b2, b1]          # left-to-right pieces of the hostmask
+    need(ast.unparse(body[3]) == 'return (minisix.intern(%s), minisix.intern(%s), minisix.intern(%s))' % tuple(pieces),
+         'splitHostmask: the result is not the three pieces in order: ' + ast.unparse(body[3]))
+    import re as _re
+    ws = [i for i in range(0x110000) if 0xD800 > i or i > 0xDFFF if _re.match(r'\s', chr(i))]
     out = 'Require Import Base.Wire.\n'
+    out += 'Definition WHITESPACE : list N := %s.\n' % clist('%d' % i for i in ws)
+    out += 'Definition SPLIT1 : bool * N := (%s, %d).\n' % ('true' if r1 else 'false', ord(c1))
+    out += 'Definition SPLIT2 : bool * N * bool := (%s, %d, %s).\n' % ('true' if r2 else 'false', ord(c2), 'true' if right else 'false')
     out += 'Definition SERVER_TAG_ESCAPE : list (N * list N) :=\n  %s.\n' % clist(
         '(%d, %s)' % (ord(k), cstr(img)) for k, img in pairs)
     out += 'Definition STR_CACHES_RETURNED_STRING : bool := true.\n'
